@@ -25,7 +25,9 @@ PolNames == {"default", "public", "open", "grouped", "partial", "missing"}
 
 Who == {[u |-> "alice", hasg |-> FALSE, gs |-> {}], [u |-> "bob", hasg |-> FALSE, gs |-> {}],
         [u |-> "bob", hasg |-> TRUE, gs |-> {"gA"}], [u |-> "bob", hasg |-> TRUE, gs |-> {}],
-        [u |-> "bob", hasg |-> TRUE, gs |-> {"gA", "gB"}]}
+        [u |-> "bob", hasg |-> TRUE, gs |-> {"gA", "gB"}],
+        \* a group whose name is the empty string is still group information: only the groups sections decide
+        [u |-> "bob", hasg |-> TRUE, gs |-> {""}], [u |-> "bob", hasg |-> TRUE, gs |-> {"", "gB"}]}
 
 OneAs(w, op, p) == [Rq(w.u, 12, "None", <<It(op, "", p)>>) EXCEPT !.hasg = w.hasg, !.groups = w.gs]
 
